@@ -36,5 +36,20 @@ for l in open(os.path.join(V, 'properties.jsonl')):
     wt = f"/tmp/wt_q{p['id']}"
     t = (T.replace('__WT__', wt).replace('__ID__', p['id']).replace('__TITLE__', p['title']).replace('__STATEMENT__', p['statement'])
           .replace('__QUANT__', p['quantifier']['text']).replace('__ANCHORS__', anchors))
+    # later rounds: name what earlier rounds changed already and ask for other free aspects
+    import glob
+    done = []
+    for m in sorted(glob.glob(os.path.join(V, 'dontcare', p['id'] + '-*', 'meta.json'))):
+        try:
+            d = json.load(open(m))
+            done.append('  - already done: ' + str(d.get('summary', '')).strip()[:500])
+        except Exception:
+            pass
+    if done:
+        t = t.replace('YOUR TASK\n', 'DIVERSITY: earlier rounds already produced the following property-preserving changes; yours must change OTHER free aspects, in other '
+                      'places:\n' + '\n'.join(done) + '\nGood candidates this time: a different but equally valid tie-break or iteration order; tuning constants and default '
+                      'sizes (buffer, cache, batch, chunk sizes); an additional output column / tag / log line / file; stricter or friendlier handling of inputs the property '
+                      'does not quantify over (malformed files, unsupported option combinations); earlier or later validation of arguments; temporary file names and '
+                      'locations; what happens to things the property calls out of scope.\n\nYOUR TASK\n', 1)
     open(f"/tmp/agent_prompt_q{p['id']}.txt", 'w').write(t)
     print(p['id'], end=' ')
